@@ -1409,7 +1409,9 @@ def rebatched_args(
     return
 
   if not num_columns:
-    first_batch = mit.first(tuples)
+    # An empty stream has no column to count, and nothing to emit.
+    if (first_batch := mit.first(tuples, None)) is None:
+      return
     tuples = mit.prepend(first_batch, tuples)
     num_columns = len(first_batch)
     logging.debug('chainable: %s', f'rebatched_tuples: {num_columns=}')
